@@ -153,6 +153,13 @@ func c07Job(t *testing.T, raw json.RawMessage) (any, error) {
 					MultipleServicesCreditControl: &cd.MultipleServicesCreditControl{RatingGroup: datatype.Unsigned32(tg.RG),
 						RequestedServiceUnit: &cd.RequestedServiceUnit{CCTotalOctets: datatype.Unsigned64(op.Amt)},
 						UsedServiceUnit:      &cd.UsedServiceUnit{CCTotalOctets: datatype.Unsigned64(op.Amt)}}}
+				// both AVPs are present, as in an ordinary update; the one that does not carry the amount of this request
+				// (used units for a termination debit, requested units otherwise) holds another number
+				if op.Action == 0 && op.Type == 3 {
+					req.MultipleServicesCreditControl.RequestedServiceUnit.CCTotalOctets = datatype.Unsigned64(op.Amt/2 + 13)
+				} else {
+					req.MultipleServicesCreditControl.UsedServiceUnit.CCTotalOctets = datatype.Unsigned64(op.Amt/2 + 13)
+				}
 				before := readBals()
 				m, err := cli.exchange(charging_code.ABMF_CreditControl, req)
 				after := readBals()
